@@ -549,14 +549,24 @@ def run_capture_script(R, wd, mb, bk, steps, syslog=False):
                         except AssertionError:
                             raise
                         except Exception as e:
-                            # with a SyslogHandler (it has no remove()) the clearing calls raise AttributeError in every
-                            # version: whatever the caller is told, the files must stay usable
+                            # (until /repo 9c57c9e SyslogHandler had no remove() and the clearing calls raised here)
+                            # whatever the caller is told, the files must stay usable: keep going, report both
                             if syslog and clearing:
                                 tolerated.append(repr(e))
+                                problems.append(('%s raised %r' % (st[1], e), None))
                             else:
                                 raise
+                        reached = list(timeline)
                         s = snaps()
                         drain(s)
+                        for c2 in expect:
+                            # the operation must reach the file handler of every channel it covers
+                            # (remove() and reopen() for the clearing calls, reopen() for the others)
+                            need = ('rm', 'r') if clearing else ('r',)
+                            missing = [k_ for k_ in need if (k_, c2) not in reached]
+                            if missing:
+                                problems.append(('%s did not %s the %s log file handler' % (
+                                    st[1], ' / '.join({'rm': 'remove()', 'r': 'reopen()'}[k_] for k_ in missing), c2), c2))
                         for c2 in expect:
                             if not (isinstance(s[c2], dict) and 0 in s[c2]):
                                 problems.append(('after %s there is no file at the configured %s log path' % (st[1], c2), c2))
@@ -1270,7 +1280,6 @@ def _run(chk, wd, proved):
                     if phase in ('normal', 'capture', 'eof_held'):
                         plan.append((mb, bk, phase, opname, channel, 0, True))
     n_tolerated = 0
-    syslog_clear_hits = 0
     if True:
         if True:
             if True:
@@ -1289,17 +1298,7 @@ def _run(chk, wd, proved):
                         chk.dist('capture_op:%s' % opname)
                         # the property, on the implementation: what is logged after the operation is in the
                         # file(s) at the configured path
-                        # known finding C19-syslog-clear: a clearing call on a program whose stdout dispatcher carries a
-                        # SyslogHandler raises AttributeError there and never reaches the stderr dispatcher
-                        base_op = opname[5:] if opname.startswith('move_') else opname
-                        in_signature = syslog and base_op in ('removelogs', 'rpc_clear', 'rpc_clear_all', 'group_removelogs')
-                        if in_signature and problems and all(c_ == 'stderr' for _, c_ in problems):
-                            syslog_clear_hits += 1
-                            problems = []
-                            skip_marker = True
-                        else:
-                            skip_marker = False
-                        if not problems and not skip_marker:
+                        if not problems:
                             if not (isinstance(final, dict) and isinstance(final.get(channel), dict)):
                                 problems.append(('no observation of the %s log' % channel, channel))
                             else:
@@ -1316,9 +1315,6 @@ def _run(chk, wd, proved):
                                 if phase != 'eof_held' and isinstance(fo, dict) and \
                                         b'p' * 40 not in b''.join(fo[i] for i in sorted(fo, reverse=True)):
                                     problems.append(('output of the other channel logged after %s is not at its path' % opname, other))
-                        if in_signature and problems and all(c_ == 'stderr' for _, c_ in problems):
-                            syslog_clear_hits += 1
-                            problems = []
                         for pr, _c in problems[:1]:
                             chk.violation(_j({'kind': 'C19 fails on the implementation (capturing dispatcher)', 'what': pr,
                                               'maxbytes': mb, 'backups': bk, 'phase': phase, 'operation': opname,
@@ -1337,19 +1333,11 @@ def _run(chk, wd, proved):
                           'backups': bk, 'phase': phase, 'operation': opname, 'channel_operated': channel,
                           'channel_compared': ch, 'steps': [list(x) for x in steps], 'coq_case': ccases[i][:3000]}),
                       nofail=True)
-    if n_tolerated:
-        chk.note('observation: clearProcessLogs / removelogs on a program with *_syslog=true raised (SyslogHandler has no '
-                 'remove()) in %d scripts; the files stayed usable' % n_tolerated)
     chk.note('t_capture_done=%.1f' % (__import__('time').time() - chk.t0))
     n_conf = config_stream(chk, R, wd)
     n_act_scripts, n_act = activity_stream(chk, R, wd)
     n_outage = outage_stream(chk, R, wd)
     chk.note('t_config_activity_outage_done=%.1f' % (__import__('time').time() - chk.t0))
-    if syslog_clear_hits:
-        chk.known_finding('C19-syslog-clear', 'clearProcessLogs / clearAllProcessLogs / removelogs on a program with stdout_syslog=true: '
-                                              'SyslogHandler has no remove(), the AttributeError leaves the stderr dispatcher (and the capture '
-                                              'logs) untouched and the RPC fails; after the logs were moved away nothing is recreated at the '
-                                              'stderr path; %d such scripts explored, all agree with the model' % syslog_clear_hits)
     if shared_hits:
         chk.known_finding('C19-shared', 'more than one rotating handler on one path (stdout and stderr, or two logs, configured '
                                         'to the same file): a backup shorter than maxbytes, a live log at or above maxbytes or '
